@@ -20,14 +20,22 @@ func main() {
 	}
 	gor, _ := strconv.Atoi(os.Args[2])
 	iter, _ := strconv.Atoi(os.Args[3])
+	// the expected results come from one set of shared objects, the concurrent
+	// calls use a second, never used set: what is completed on first use is
+	// then written while other goroutines read it, and the race detector sees it
+	expect := map[string]string{}
+	for _, g := range c08.Groups() {
+		if g.Name == os.Args[1] {
+			for _, o := range g.Ops {
+				expect[o.Name], _ = o.Run()
+			}
+		}
+	}
 	for _, g := range c08.Groups() {
 		if g.Name != os.Args[1] {
 			continue
 		}
-		alone := map[string]string{}
-		for _, o := range g.Ops {
-			alone[o.Name], _ = o.Run()
-		}
+		alone := expect
 		var wg sync.WaitGroup
 		var mu sync.Mutex
 		bad := ""
